@@ -135,14 +135,18 @@ class Check(PropertyCheck):
                   "every guard on the INPUT: boundary without CR and double quote, and --boundary occurring in no key, value or content type; "
                   "the encoder's refusal is derived too) and multipart_roundtrip_counterexample (F-C34a); "
                   "form_view_roundtrip (urlencoded form: pairs read back, content type reset to the bare form type whatever charset it carried, "
-                  "write-back is the identity) and query_view_roundtrip with urllib's urlencode/parse_qsl and the text codec as parameters. "
+                  "write-back is the identity) and query_view_roundtrip with urllib's urlencode/parse_qsl and the text codec as parameters; "
+                  "path_components_roundtrip and query_view_roundtrip_target on the RAW request target (urlparse's cutting at # ? and ;params "
+                  "imported from the C33 transcription, urlunparse's re-assembly; quote/unquote resp. urlencode/parse_qsl as parameters with laws): "
+                  "any non-empty components assigned to any target (leading //, ;params, several ?, #, *) read back, params/query/fragment kept. "
                   "Cookie, Set-Cookie, multipart and url.encode's style imitation are tied differentially to the real functions and views; all "
                   "six views are checked on the real Request/Response objects by the oracle.")
     level_note = ("PARTIAL: in the multipart theorems encoder and decoder use the same boundary (F-C34c is the case where urllib.quote changes it); "
                   "the delimiter guard of multipart_roundtrip_partial is now derived from input-level conditions (noEarly_piece, multipart_roundtrip). form_view_roundtrip and query_view_roundtrip assume the "
                   "urllib laws (parse_qsl (urlencode ps) = ps; urlencode writes no parameter without '='; the bare form content type decodes "
-                  "ASCII bytes back) and the guard that the existing body has no bare parameter (else F-C34e). The path_components view has no "
-                  "theorem (oracle on the real objects only). Set-Cookie write-back of arbitrary received headers is not idempotent (F-C34f). "
+                  "ASCII bytes back) and the guard that the existing body has no bare parameter (else F-C34e). path_components_roundtrip assumes "
+                  "QuoteLaw (unquote inverts quote; a quoted component has none of / ; ? #; only '' quotes to ''); write-back of path_components is "
+                  "NOT the identity (F-C34d) and has no theorem. The target model is tied by the tparts/tset driver ops (target cases). Set-Cookie write-back of arbitrary received headers is not idempotent (F-C34f). "
                   "Findings: F-C34a CR/LF in multipart values dropped (encoder's extra blank line is pinned by test_multipart, so the decoder "
                   "cannot be repaired alone), F-C34b multipart keys with a double quote/CR/LF truncated, F-C34c boundary characters that "
                   "urllib.quote escapes, F-C34d path_components write-back collapses empty segments / trailing slash, F-C34e ('','') form "
@@ -164,6 +168,8 @@ class Check(PropertyCheck):
             "messages whose content-type carries parameters (charset absent/utf-8/latin-1/utf-16le/utf-16be/utf-32le/cp037/cp500/unknown/quoted, "
             "extra and upper-case parameter names, non-form types) with existing bodies written consistently or inconsistently with them, both "
             "for set-then-get and for write-back of the existing view (formwb); multipart content types with charset/extra/upper-case parameters. "
+            "target cases: the same request targets under http/https/other schemes, tying the model's reading of the target (path, ;params, "
+            "query, fragment) and its path_components / query setters to urlparse(request.url) and the real setters; "
             "hist cases: two or three messages with identical Set-Cookie / Cookie lines, query, form or multipart body, or path; on the first one the "
             "view is read, the objects it hands out are edited in place (CookieAttrs set/add, list items), written back, assigned new pairs "
             "or (responses) refresh()ed, and after every step every untouched message must still read what its raw data says (input-derived), "
@@ -291,6 +297,8 @@ class Check(PropertyCheck):
                     ((["refresh"], ["mutate", "refresh"]) if view == "respcookies" else ()):
                 yield {"k": "hist", "view": view, "pairs": [["sid", "abc123"], ["k2", "v2"]], "ops": list(ops), "n": 2}
         for p0 in WIDE_PATHS:
+            yield {"k": "target", "path0": p0, "scheme": "http", "comps": ["x", "y z"], "pairs": [["k", "v"]]}
+        for p0 in WIDE_PATHS:
             yield {"k": "wb", "path0": p0}
             if p0 != "*":
                 yield {"k": "query", "pairs": [["k", "v"], ["a b", "c&d"]], "path0": p0}
@@ -303,7 +311,10 @@ class Check(PropertyCheck):
                 ops = [rng.pick(["mutate", "writeback", "assign", "read"] + (["refresh", "refresh"] if view == "respcookies" else []))
                        for _ in range(rng.randint(1, 4))]
                 yield {"k": "hist", "view": view, "pairs": [[tok(), tok()] for _ in range(rng.randint(1, 3))], "ops": ops, "n": rng.randint(2, 3)}
-            elif r < 0.10: yield {"k": "wb", "path0": self._wide_path(rng)}
+            elif r < 0.08: yield {"k": "wb", "path0": self._wide_path(rng)}
+            elif r < 0.12:
+                yield {"k": "target", "path0": self._wide_path(rng), "scheme": rng.pick(["http", "https", "http", "gopher", "ws"]),
+                       "comps": [self._sane(self._s(rng, STR_ALPHA, 0, 3)) for _ in range(rng.randint(0, 3))], "pairs": self._pairs(rng)}
             elif r < 0.22: yield {"k": "cookie", "pairs": self._ck_pairs(rng)}
             elif r < 0.32: yield {"k": "cookiehdr", "hdrs": [self._sane(self._s(rng, CK_ALPHA, 0, 8)) for _ in range(rng.randint(1, 2))]}
             elif r < 0.47: yield {"k": "setcookie", "cookies": [self._sc(rng) for _ in range(rng.randint(0, 2))]}
@@ -508,6 +519,15 @@ class Check(PropertyCheck):
                 return {"dec": "ValueError"}
         if k == "hist":
             return self._hist(case)
+        if k == "target":
+            import urllib.parse
+            pb = case["path0"].encode("utf8", "surrogateescape")
+            mk = lambda: http.Request("example.com", 80, b"GET", case["scheme"].encode(), b"", pb, b"HTTP/1.1", http.Headers(), b"", None, 0, 0)
+            r = mk()
+            parts = list(urllib.parse.urlparse(r.url)[2:])
+            r.path_components = list(case["comps"]); p_pc = r.path
+            r = mk(); r.query = [tuple(p) for p in case["pairs"]]
+            return {"parts": parts, "path_pc": p_pc, "path_q": r.path}
         if k == "wb":
             pb = case["path0"].encode("utf8", "surrogateescape")
             hd = [(b"Host", b"example.com"), (b"Cookie", b"a=1; b=\"x y\"")]
@@ -863,6 +883,13 @@ class Check(PropertyCheck):
             return ["scfmt " + self._pairs_field([(n, v)] + [tuple(a) for a in attrs]) for n, v, attrs in case["cookies"]]
         if k == "setcookiehdr":
             return ["scparse " + cps(h) for h in case["hdrs"]]
+        if k == "target":
+            import urllib.parse
+            from mitmproxy.net.http import url as nurl
+            sc, p0 = cps(case["scheme"]), cps(case["path0"])
+            comps = ",".join(cps(nurl.quote(c, safe="")) for c in case["comps"]) or "none"
+            return ["tparts %s %s" % (sc, p0), "tset %s %s path %s -" % (sc, p0, comps),
+                    "tset %s %s query none %s" % (sc, p0, cps(nurl.encode([tuple(p) for p in case["pairs"]])))]
         if k in ("form", "formwb"):
             # url.encode(pairs, similar_to) with urllib's urlencode as the parameter: the style imitation (bare parameters) is the model's
             import urllib.parse
@@ -910,6 +937,8 @@ class Check(PropertyCheck):
         if k == "multipart":
             if obs["set"] != "ok": return ["raise"]
             return ["%s %s" % (obs["body_hex"], ",".join("%s=%s" % (a, b) for a, b in obs["back"]) or "-")]
+        if k == "target":
+            return [" ".join(cps(x) for x in obs["parts"]), cps(obs["path_pc"]), cps(obs["path_q"])]
         if k in ("form", "formwb"):
             return [cps(unhx(obs["body_hex"]).decode("ascii"))]
         if k == "mpbody":
@@ -921,7 +950,7 @@ class Check(PropertyCheck):
         return "|".join(self._pairs_field(c) for c in cookies)
 
     def classify(self, case, obs):
-        if case["k"] in ("wb", "hist"): return json.dumps(case, sort_keys=True)
+        if case["k"] in ("wb", "hist", "target"): return json.dumps(case, sort_keys=True)
         triv = {"cookie": "pairs", "cookiehdr": "hdrs", "setcookie": "cookies", "setcookiehdr": "hdrs", "multipart": "parts", "query": "pairs",
                 "form": "pairs", "path": "comps"}.get(case["k"])
         if triv and not case[triv]: return None
@@ -943,7 +972,7 @@ class Check(PropertyCheck):
             out.append("form-ct:" + ("none" if not ct else "not-form" if "x-www-form-urlencoded" not in ct.lower() else
                                      "charset=" + str((p_[2].get("charset") if p_ else None) or "absent").lower()[:10]))
             out.append("form-body:" + ("consistent" if case.get("benc") == form_charset(case["ct"]) else "inconsistent"))
-        if k in ("wb", "query", "path"):
+        if k in ("wb", "query", "path", "target"):
             p0 = case["path0"]
             for tag, cond in (("lead//", p0.startswith("//")), ("://", "://" in p0), (";params", ";" in p0.split("?")[0]), ("#", "#" in p0),
                               ("??", p0.count("?") > 1), ("empty", p0 == ""), ("*", p0 == "*"), ("%2F", "%2F" in p0), ("non-ascii", any(ord(c) > 127 for c in p0))):
